@@ -235,6 +235,23 @@ func c15Base(r *rand.Rand, i int) (*lib.ProfileDoc, *lib.Graph) {
 			prof.Info = append(prof.Info, name)
 		}
 	}
+	if r.Intn(2) == 0 {
+		// 6 to 14 quantified siblings in one mapping (each gets the next variable of the translator in the order of
+		// writing): reordering the keys moves every body to another variable
+		var kinds []lib.AtomKind
+		for _, k := range lib.AtomKinds {
+			if k.Name != "inFractional" { // known finding F16
+				kinds = append(kinds, k)
+			}
+		}
+		w, root := lib.NewSiblingWorld(r, 2000, 6+r.Intn(9), r.Intn(len(kinds)), kinds)
+		for _, nd := range w.G.Nodes {
+			nn := g.AddNode(nd.ID, nd.Types...)
+			nn.Props = nd.Props
+		}
+		prof.Validations = append(prof.Validations, lib.Validation{Name: "siblings", TargetClass: "ex.T2000", Message: "message of siblings", Body: w.ToExpr(root, r)})
+		prof.Violation = append(prof.Violation, "siblings")
+	}
 	// adversarial family: scalar VALUES that equal sibling KEYS of the profile language
 	adv := g.AddNode(lib.EX+"adv1", lib.EX+"Adv")
 	adv.Add(lib.EX+"word", lib.StrV(pick(r, "minCount", "pattern", "other")))
